@@ -121,7 +121,7 @@ fn verdict(exp: &Expected, out: &Outcome, v: Option<i64>) -> Option<&'static str
 fn shrink<'a>(envir: &Envir, e: &'a E, env: &Env) -> &'a E {
     for c in e.children() {
         if let Some(exp) = expr::eval(c, env, envir.pc_base) {
-            let text = expr::render(c, &mut Style { rng: None });
+            let text = expr::render(c, &mut Style::plain());
             let (out, v) = observe(envir, &text);
             if verdict(&exp, &out, v).is_some() {
                 return shrink(envir, c, env);
@@ -137,7 +137,7 @@ fn report(ctx: &Ctx, envir: &Envir, c: &Case, env: &Env) {
     ctx.count("single_expression_builds", 1);
     let Some(aspect) = verdict(&c.exp, &out, v) else { return };
     let min = shrink(envir, &c.e, env);
-    let min_text = expr::render(min, &mut Style { rng: None });
+    let min_text = expr::render(min, &mut Style::plain());
     let sig = if std::ptr::eq(min, &c.e) {
         format!("expr/{}/{}", c.family, aspect)
     } else {
@@ -224,7 +224,7 @@ fn grid_values() -> Vec<i64> {
 fn mk(envir: &Envir, e: E, family: String, rng: Option<&mut Rng>) -> Option<Case> {
     let env = env_for(envir, 1);
     let exp = expr::eval(&e, &env, envir.pc_base)?;
-    let text = expr::render(&e, &mut Style { rng });
+    let text = expr::render(&e, &mut Style { rng, unary_blanks: false });
     Some(Case { e, text, exp, family })
 }
 
@@ -353,7 +353,7 @@ fn random_cases(envir: &Envir, rng: &mut Rng, n: usize, depth: u32) -> Vec<Case>
         if !matches!(exp, Expected::Value(_)) && rng.chance(2, 3) {
             continue;
         }
-        let text = expr::render(&e, &mut Style { rng: Some(rng) });
+        let text = expr::render(&e, &mut Style::with(rng));
         if text.len() > 400 {
             continue;
         }
